@@ -83,6 +83,278 @@ def run(ctx) -> None:
     check_inverse(ctx, regs)
     check_total(ctx)
     check_cover(ctx)
+    ctx.rule("C03.exact", "T2: an undo entry undoes exactly what the operation did (idempotent adds, late-bound receivers, atomic objective replacement)", floor=20)
+    check_exact(ctx, regs)
+    check_objective_atomic(ctx)
+    check_resettable(ctx)
+    ctx.rule("C03.bounded", "T2: under its bound arguments an undo entry writes only cells the operation writes", floor=10)
+    check_bounded(ctx, regs)
+
+
+
+# ------------------------------------------------------------------------------ exactness of undo entries
+SET_REMOVERS = {"remove", "discard", "_dissociate_gene"}
+IDEMPOTENT_EXCEPTIONS = {
+    ("core.model.Model.add_reactions", "context(partial(model_metabolite._reaction.remove, reaction))"):
+        "the reaction comes from `pruned` (not in the model); by the back-reference invariant (C02.backref) no model metabolite lists a reaction that is not in the model",
+}
+REPLACEABLE = (".solver.objective",)
+
+
+def check_exact(ctx, regs: List[Registration]) -> None:
+    """An undo entry must undo what the operation did - no more.
+
+    (idempotent) Adding to a set is idempotent: the registered removal is only right for an element that was absent
+    before. A registration that removes an element from a set-valued cell must be guarded by a pre-state membership
+    test of that element (or be frozen with a reason).
+    (latebound) An undo entry must not be a bound method of an object reached through a cell that reversible
+    operations replace (the solver objective): when the objective is replaced later in the block and restored by its
+    own undo, the entry acts on an object that is no longer installed."""
+    for r in regs:
+        if r.target is None:
+            continue
+        key = (r.fn.qualname.replace("cobra.", "", 1), norm(enclosing_stmt(r.node)))
+        ttxt = norm(r.target)
+        # ---- latebound
+        bound_to = next((c for c in REPLACEABLE if (c + ".") in (ttxt + ".") and ttxt.rsplit(".", 1)[0].endswith(c)), None)
+        if bound_to:
+            ctx.bad("C03.exact", r.fn, enclosing_stmt(r.node), f"the undo entry is a bound method of `{ttxt.rsplit('.', 1)[0]}` as installed now; reversible operations replace that object (e.g. `model.objective = ...` later in the same block, restored by its own undo with a new object), so on exit the entry acts on an object that is no longer the model's: the change is not restored, or the exit raises")
+        elif isinstance(r.target, ast.Attribute) or r.target_fn:
+            ctx.ok("C03.exact", r.fn, enclosing_stmt(r.node), "not bound to a replaceable solver object", nontrivial=False)
+        # ---- idempotent
+        last = ttxt.rsplit(".", 1)[-1]
+        if last not in SET_REMOVERS or not r.args:
+            continue
+        recv_t = norm(r.recv) if r.recv is not None else ""
+        is_set_cell = last == "_dissociate_gene" or recv_t.endswith("._reaction") or recv_t.endswith("._genes")
+        if not is_set_cell:
+            continue
+        elem = norm(r.args[0])
+        guarded = False
+        for a in ancestors(r.node):
+            if a is r.fn.node:
+                break
+            if isinstance(a, ast.If):
+                for cmp_ in ast.walk(a.test):
+                    if isinstance(cmp_, ast.Compare) and len(cmp_.ops) == 1 and isinstance(cmp_.ops[0], ast.NotIn) and norm(cmp_.left) == elem:
+                        guarded = True
+        if guarded:
+            ctx.ok("C03.exact", r.fn, enclosing_stmt(r.node), f"removal of `{elem}` is registered only when it was absent before (pre-state membership test)")
+        elif key in IDEMPOTENT_EXCEPTIONS:
+            ctx.ok("C03.exact", r.fn, enclosing_stmt(r.node), f"frozen: {IDEMPOTENT_EXCEPTIONS[key]}")
+        else:
+            ctx.bad("C03.exact", r.fn, enclosing_stmt(r.node), f"the undo entry removes `{elem}` from a set although adding to a set is idempotent and nothing shows that `{elem}` was absent before: for an element that was already there the exit removes a link that existed on entry (e.g. `with model: model.repair()` wipes every gene-reaction link)")
+
+
+def check_resettable(ctx) -> None:
+    """resettable.wrapper: with an active context, every call of the wrapped setter with a changed value is preceded by
+    the registration of `func(self, old_value)` - unconditionally (T1 must-pass-through)."""
+    fn = None
+    for f in ctx.prog.all_funcs():
+        if f.short == "resettable.wrapper":
+            fn = f
+    if fn is None:
+        raise AnalysisError("resettable.wrapper not found")
+    g = ctx.flow.cfg(fn)
+    regs = [n for n in walk_local(fn.node) if isinstance(n, ast.Call) and isinstance(n.func, ast.Name) and n.func.id == "context"]
+    sets = [n for n in walk_local(fn.node) if isinstance(n, ast.Call) and isinstance(n.func, ast.Name) and n.func.id == "func" and len(n.args) == 2 and not any(isinstance(a, ast.Call) and norm(a.func) == "partial" for a in ancestors(n))]
+    if not regs or not sets:
+        raise AnalysisError("resettable.wrapper: registration or setter call not found")
+    ok_filter = _ctx_guard_filter(ctx, fn)
+    blockers = set()
+    for r in regs:
+        blockers |= {x for x in g.node_containing(r) if x.kind != "with_exit"}
+    targets = set()
+    for s_ in sets:
+        targets |= {x for x in g.node_containing(s_) if x.kind != "with_exit"}
+    w = g.reaches_without(targets, lambda x: x in blockers, edge_ok=lambda a, b, l: l != "exc" and ok_filter(a, b, l))
+    if w is not None:
+        ctx.bad("C03.inverse", fn, enclosing_stmt(regs[0]), "with an active context the wrapped setter can be reached without registering the old value (the registration is conditional on something other than `old == new`): e.g. after lower_bound, upper_bound, lower_bound on one reaction the replay restores the bounds in an order the validating setters reject, and the exit raises", path=describe_path(w))
+    else:
+        ctx.ok("C03.inverse", fn, enclosing_stmt(regs[0]), "every call of the wrapped setter under an active context is preceded by the registration of the old value (skipped only when old == new, where the function returns)")
+    # the registered callable is the wrapped function itself with the same object and the old value
+    r = regs[0]
+    arg = r.args[0] if r.args else None
+    if isinstance(arg, ast.Call) and norm(arg.func) == "partial" and [norm(a) for a in arg.args] == ["func", "self", "old_value"]:
+        ctx.ok("C03.inverse", fn, enclosing_stmt(r), "the entry is func(self, old_value): the raw setter, which records nothing itself", nontrivial=False)
+    else:
+        ctx.bad("C03.inverse", fn, enclosing_stmt(r), "the registered entry is not `partial(func, self, old_value)`")
+
+
+def check_objective_atomic(ctx) -> None:
+    """set_objective: every fallible look-up on the caller's reactions happens before the objective is replaced."""
+    fn = ctx.prog.func("cobra.util.solver", "set_objective")
+    g = ctx.flow.cfg(fn)
+    repl = [n for n in walk_local(fn.node) if isinstance(n, ast.Assign) and norm(n.targets[0]).endswith("solver.objective")]
+    lookups = [n for n in walk_local(fn.node) if isinstance(n, ast.Attribute) and n.attr in ("forward_variable", "reverse_variable")]
+    if not repl or not lookups:
+        raise AnalysisError("set_objective: anchors (objective replacement, variable look-ups) not found")
+    rnodes = set()
+    for r in repl:
+        if any(isinstance(a, ast.FunctionDef) and a is not fn.node for a in ancestors(r)):
+            continue  # the reset closure
+        rnodes |= {x for x in g.node_containing(r) if x.kind != "with_exit"}
+    after = g.reach(list(rnodes), edge_ok=lambda a, b, l: l != "exc")
+    late = []
+    for lk in lookups:
+        for x in g.node_containing(lk):
+            if x in after and x not in rnodes:
+                late.append(lk)
+    if late:
+        ctx.bad("C03.exact", fn, enclosing_stmt(late[0]), "a reaction's variables are looked up after the objective has been replaced: for a reaction that is not in the model this raises with the objective already wiped and no undo registered (inside or outside a context)")
+    else:
+        ctx.ok("C03.exact", fn, enclosing_stmt(lookups[0]), "every variable is resolved before the objective is replaced: a bad key leaves the objective alone")
+
+
+# ------------------------------------------------------------------------------ undo entries do no more than undo
+class Reach:
+    """Model cells a function may write when called with the given constant keyword bindings (path-sensitive on them)."""
+
+    def __init__(self, ctx):
+        self.ctx = ctx
+        self.memo: Dict[Tuple, Optional[Set[Tuple[str, str]]]] = {}
+        self.busy: Set[Tuple] = set()
+        self.inert = Inert(ctx)
+
+    def cells(self, fn: FuncInfo, bindings: Dict[str, object]) -> Set[Tuple[str, str]]:
+        key = (id(fn), tuple(sorted((k, repr(v)) for k, v in bindings.items())))
+        if key in self.memo:
+            return self.memo[key] or set()
+        if key in self.busy:
+            return set()
+        self.busy.add(key)
+        try:
+            res = self._compute(fn, bindings)
+        finally:
+            self.busy.discard(key)
+        self.memo[key] = res
+        return res
+
+    def _compute(self, fn: FuncInfo, bindings: Dict[str, object]) -> Set[Tuple[str, str]]:
+        ctx = self.ctx
+        eff = ctx.eff
+        g = ctx.flow.cfg(fn)
+        env = dict(bindings)
+        for p in fn.params:
+            if p not in env:
+                d = fn.param_default(p)
+                if isinstance(d, ast.Constant):
+                    env[p] = d.value
+        live = g.live_nodes(edge_ok=self.inert.edge_filter(fn, env))
+        out: Set[Tuple[str, str]] = set()
+        for e in eff.own_effects(fn):
+            nodes = [n for n in g.node_containing(e.node) if n.kind != "with_exit"]
+            if nodes and not any(n in live for n in nodes):
+                continue
+            if e.kind in ("RAW", "REV") and e.cell:
+                out.add((e.cell, e.op))
+            elif e.kind == "CALL" and e.note != "remote" and e.chain:
+                callee = e.chain[0][0]
+                if isinstance(e.node, ast.Call) and self._noop_on_empty(fn, g, live, e.node, callee):
+                    continue
+                b2: Dict[str, object] = {}
+                if isinstance(e.node, ast.Call) and e.note not in ("hof", "setter"):
+                    skip_self = callee.is_method and e.recv is not None
+                    try:
+                        bound = bind_args(callee, e.node, skip_self=skip_self)
+                    except Exception:
+                        bound = {}
+                    for p, arg in bound.items():
+                        if isinstance(arg, ast.Constant):
+                            b2[p] = arg.value
+                        elif isinstance(arg, ast.Name) and arg.id in env:
+                            b2[p] = env[arg.id]
+                out |= self.cells(callee, b2)
+        return out
+
+
+    def _noop_on_empty(self, fn: FuncInfo, g, live, call: ast.Call, callee: FuncInfo) -> bool:
+        """The call hands over a local collection that is provably empty on the live paths, and the callee only acts
+        inside loops over that parameter."""
+        eff = self.ctx.eff
+        try:
+            bound = bind_args(callee, call, skip_self=callee.is_method and isinstance(call.func, ast.Attribute))
+        except Exception:
+            return False
+        for p, arg in bound.items():
+            if not isinstance(arg, ast.Name):
+                continue
+            name = arg.id
+            inits = [n for n in walk_local(fn.node) if isinstance(n, ast.Assign) and len(n.targets) == 1 and isinstance(n.targets[0], ast.Name) and n.targets[0].id == name]
+            if len(inits) != 1 or not (isinstance(inits[0].value, (ast.List, ast.Set)) and not inits[0].value.elts or norm(inits[0].value) in ("set()", "list()", "[]")):
+                continue
+            growers = [n for n in walk_local(fn.node) if isinstance(n, ast.Call) and isinstance(n.func, ast.Attribute) and isinstance(n.func.value, ast.Name) and n.func.value.id == name and n.func.attr in ("append", "extend", "add", "update", "insert")]
+            growers += [n for n in walk_local(fn.node) if isinstance(n, ast.AugAssign) and isinstance(n.target, ast.Name) and n.target.id == name]
+            if any(any(x in live for x in g.node_containing(n)) for n in growers):
+                continue
+            # callee: every own effect sits inside a loop over p
+            ok = True
+            for ce in eff.own_effects(callee):
+                if ce.kind not in ("RAW", "REV", "CALL", "REG"):
+                    continue
+                if ce.kind == "CALL" and ce.chain and not [x for x in eff.summary(ce.chain[0][0]) if x.kind in ("RAW", "REV", "REG")]:
+                    continue  # a call without effects of its own (get_context, warn ...)
+                inside = False
+                for a in ancestors(ce.node):
+                    if a is callee.node:
+                        break
+                    if isinstance(a, ast.For) and isinstance(a.iter, ast.Name) and a.iter.id == p:
+                        inside = True
+                if not inside:
+                    ok = False
+                    break
+            if ok:
+                return True
+        return False
+
+
+CONTAINER_CLASSES = {"DictList", "HistoryManager", "Group"}
+_RG = ("core.reaction.Reaction.update_genes_from_gpr", "context(partial(remove_genes, model=self._model, gene_list=[model_genes.get_by_id(g_id)], remove_reactions=False))")
+BOUNDED_EXCEPTIONS: Dict[Tuple[str, str, str], str] = {
+    _RG + ("GPR.body",): "remove_genes(remove_reactions=False) strips the gene from the rules that mention it; the gene was created by this call for the rule being installed, and that rule is put back by the rule setter's own undo entry (resettable), so the stripped rule never survives the exit",
+    _RG + ("Group._members",): "a gene created inside the block can only have joined a group inside the block; taking it out of its groups again is part of removing it",
+}
+
+
+def check_bounded(ctx, regs: List[Registration]) -> None:
+    """The cells an undo entry may write (under its bound arguments) are cells the registering operation writes itself."""
+    reach = Reach(ctx)
+    for r in regs:
+        if not r.target_fn or r.fn.short == "resettable.wrapper" or r.closure is not None:
+            continue
+        if all((t.cls is not None and t.cls.name in CONTAINER_CLASSES) for t in r.target_fn):
+            continue  # container primitives: their pairing with the forward operation is C03.inverse's table
+        key_fn = r.fn.qualname.replace("cobra.", "", 1)
+        construct = norm(enclosing_stmt(r.node))
+        b: Dict[str, object] = {}
+        for k, v in r.kwargs.items():
+            if isinstance(v, ast.Constant):
+                b[k] = v.value
+        undo: Set[Tuple[str, str]] = set()
+        for t in r.target_fn:
+            pos = [p for p in t.params if not (t.is_method and p == t.params[0])] if t.is_method and r.recv is not None else list(t.params)
+            b2 = dict(b)
+            for p, a in zip(pos, r.args):
+                if isinstance(a, ast.Constant):
+                    b2[p] = a.value
+            undo |= reach.cells(t, b2)
+        fwd_ops = reach.cells(r.fn, {})
+        forward = {c for c, _ in fwd_ops}
+        undo_cells = {c for c, _ in undo if c13_is_model_cell(c)}
+        extra = sorted(c for c in undo_cells if c not in forward and c not in MIRROR_CELLS)
+        extra = [c for c in extra if (key_fn, construct, c) not in BOUNDED_EXCEPTIONS]
+        if ("obj.expr", "replace") in undo and ("obj.expr", "replace") not in fwd_ops and not extra:
+            ctx.bad("C03.bounded", r.fn, enclosing_stmt(r.node), f"with the arguments bound here the undo entry installs a new objective although {r.fn.short} only edits coefficients of the objective in place: on exit every other term of the objective (and any objective installed later in the block) is wiped (arguments: {sorted(b.items())})")
+        elif extra:
+            ctx.bad("C03.bounded", r.fn, enclosing_stmt(r.node), f"with the arguments bound here the undo entry may write {extra}, which {r.fn.short} itself never writes: on exit it does more than take the operation back (arguments: {sorted(b.items())})")
+        else:
+            ctx.ok("C03.bounded", r.fn, enclosing_stmt(r.node), f"under its bound arguments the undo entry writes only cells the operation writes ({len(undo_cells)} cell(s))")
+
+
+def c13_is_model_cell(cell: str) -> bool:
+    from . import c13
+
+    return c13.is_model_cell(cell)
 
 
 # ----------------------------------------------------------------------------------------- stack
@@ -533,6 +805,10 @@ def _reg_covers(ctx, fn: FuncInfo, m: Eff, r: Registration) -> bool:
             if (m.op == "add" and name == "remove") or (m.op == "remove" and name == "add"):
                 return _args_match(m, r)
     # (c) a package function / closure that writes the same cell of the same object
+    # provenance is coarse ("derives from the model"), so an entry registered in a *different* loop than the mutation
+    # (another iteration space: other objects) is not accepted as acting on the same object
+    if r.closure is None and _enclosing_for(r.node, fn) is not _enclosing_for(m.node, fn) and m.op in ("rebind", "write") and m.cell.endswith("._model"):
+        return False
     list_cell = m.cell in ("Model.reactions", "Model.metabolites", "Model.genes", "Model.groups") and m.op in ("add", "remove")
     for t in r.target_fn:
         summ = eff.summary(t) + [e for e in eff.own_effects(t) if e.kind == "RAW"]
